@@ -60,7 +60,11 @@ theorem own_step_isolated (s : St) (hi : Inv s) (a : Nat) (ev : Ev) (hown : ownE
       split
       · simp
       · split
-        · refine ⟨by rw [setPhase_get]; simp only [hv, if_false]; rw [signal_get]; simp [hv], by simp, rfl, rfl⟩
+        · refine ⟨?_, by simp, rfl, rfl⟩
+          simp only
+          split
+          · rw [setRet_ne _ _ _ _ hv, setPhase_get]; simp only [hv, if_false]; rw [signal_get]; simp [hv]
+          · rw [setPhase_get]; simp only [hv, if_false]; rw [signal_get]; simp [hv]
         · refine ⟨by rw [setPhase_get]; simp [hv], ?_, rfl, rfl⟩
           intro q'
           simp only [List.mem_cons, Prod.mk.injEq]
@@ -79,8 +83,11 @@ theorem own_step_isolated (s : St) (hi : Inv s) (a : Nat) (ev : Ev) (hown : ownE
       simp only
       cases hp : r.phase with
       | registered q =>
-        obtain ⟨h1, h2, h3, h4⟩ := removeAndSignal_isolated s hi c q .codecErr r hr hp v hv
-        exact ⟨by simp only; rw [setPhase_get]; simp [hv, h1], h2, h3, h4⟩
+        simp only
+        split
+        · simp
+        · obtain ⟨h1, h2, h3, h4⟩ := removeAndSignal_isolated s hi c q .codecErr r hr hp v hv
+          exact ⟨by simp only; rw [setPhase_get]; simp [hv, h1], h2, h3, h4⟩
       | fresh => simp
       | finished => simp
   | writeFail c =>
@@ -93,8 +100,15 @@ theorem own_step_isolated (s : St) (hi : Inv s) (a : Nat) (ev : Ev) (hown : ownE
       simp only
       cases hp : r.phase with
       | registered q =>
+        simp only
+        split
+        · simp
         obtain ⟨h1, h2, h3, h4⟩ := removeAndSignal_isolated s hi c q .connErr r hr hp v hv
-        exact ⟨by simp only; rw [setPhase_get]; simp [hv, h1], h2, h3, h4⟩
+        refine ⟨?_, h2, h3, h4⟩
+        simp only
+        split
+        · rw [setRet_ne _ _ _ _ hv, setPhase_get]; simp [hv, h1]
+        · rw [setPhase_get]; simp [hv, h1]
       | fresh => simp
       | finished => simp
   | writeOk c =>
@@ -109,9 +123,11 @@ theorem own_step_isolated (s : St) (hi : Inv s) (a : Nat) (ev : Ev) (hown : ownE
       | registered q =>
         simp only
         split
-        · obtain ⟨h1, h2, h3, h4⟩ := removeAndSignal_isolated s hi c q .none_ r hr hp v hv
-          exact ⟨by simp only; rw [setPhase_get]; simp [hv, h1], h2, h3, h4⟩
-        · simp
+        · exact ⟨markWritten_ne _ _ _ hv, by simp, rfl, rfl⟩
+        · split
+          · obtain ⟨h1, h2, h3, h4⟩ := removeAndSignal_isolated s hi c q .none_ r hr hp v hv
+            exact ⟨by simp only; rw [setPhase_get]; simp [hv, h1], h2, h3, h4⟩
+          · simp
       | fresh => simp
       | finished => simp
   | ctxDone c =>
@@ -124,7 +140,9 @@ theorem own_step_isolated (s : St) (hi : Inv s) (a : Nat) (ev : Ev) (hown : ownE
       simp only
       split
       · simp
-      · -- removal (only of its own entry), then the caller's own return bookkeeping
+      · split
+        · simp
+        -- removal (only of its own entry), then the caller's own return bookkeeping
         have h1 : (ctxRemove s c r).calls[v]? = s.calls[v]?
             ∧ (∀ q', (q', v) ∈ (ctxRemove s c r).pending ↔ (q', v) ∈ s.pending)
             ∧ (ctxRemove s c r).shutdown = s.shutdown ∧ (ctxRemove s c r).closing = s.closing := by
@@ -188,7 +206,7 @@ def ctxDonePrefix (s : St) (cell : Nat) : St :=
   | some c' => { s with pending := erase s.pending cell, calls := signal s.calls c' .ctxErr }
   | none => s
 theorem d11_witness :
-    let s := run (init [false, false]) [.register 0, .writeOk 0]     -- the victim owns seq 0; call 1 is not registered
+    let s := run (init (plain [false, false])) [.register 0, .writeOk 0]     -- the victim owns seq 0; call 1 is not registered
     ((ctxDonePrefix s 0).calls[0]?.map (·.outcome)) = some (some .ctxErr) := by decide
 
 /-! ### the model's atomic steps are the code's critical sections (regenerated facts) -/
